@@ -5,6 +5,7 @@
 -/
 import Spec.Single
 import Spec.Match
+import Spec.UpsertExt
 import Proofs.C13Seed
 import Proofs.C13Loop
 
@@ -51,31 +52,33 @@ theorem upsert_iff_no_match (cfg : Cfg) (now : Int) (c c1 c' : Coll) (fs : Field
         idOf d = some id ∧ r.n = 1 ∧ r.nModified = 0 ∧ r.updatedExisting = false) :=
   C13Lemmas.upsert_iff_no_match_main cfg now c c1 c' fs u multi sel r he hne hn hi hg hs h
 
-theorem upsert_result (r : UpdateResult) (id : Val) (h : r.upserted = some id) (hn : id ≠ .null) :
+theorem upsert_result (r : UpdateResult) (id : Val) (h : r.upserted = some id) :
     updateOut r = .doc [("matched", .int 0), ("modified", .int r.nModified), ("upserted", id)] := by
   unfold updateOut
   rw [h]
-  cases id <;> first | exact absurd rfl hn | rfl
+  rfl
 
 theorem seed_plain_equalities (ss : Fields) (hk : ss.all (fun kv => !kv.1.toList.contains '.' && !kv.1.startsWith "$") = true)
     (hd : (dkeys ss).Nodup) :
-    expandDots ss = .ok ss ∧
-    (∀ k v, dget k ss = some v → isScalar v = true →
-        dget k (match (discardOps (.doc ss)).1 with | .doc fs => fs | _ => []) = some v) ∧
+    expandDots (equalities ss) = .ok (equalities ss) ∧
+    (∀ k v, dget k ss = some v → isScalar v = true → dget k (equalities ss) = some v) ∧
     (∀ k ops, dget k ss = some (.doc ops) → isOps ops = true → dget "$eq" ops = none →
-        dget k (match (discardOps (.doc ss)).1 with | .doc fs => fs | _ => []) = none) ∧
-    (∀ k x, dget k ss = some (.doc [("$eq", x)]) →
-        dget k (match (discardOps (.doc ss)).1 with | .doc fs => fs | _ => []) = some x) := by
+        dget k (equalities ss) = none) ∧
+    (∀ k x, dget k ss = some (.doc [("$eq", x)]) → dget k (equalities ss) = some x) := by
+  have hkv : ∀ kv ∈ ss, kv.1.toList.contains '.' = false ∧ kv.1.startsWith "$" = false := by
+    intro kv hm
+    have := List.all_eq_true.1 hk kv hm
+    simp only [Bool.and_eq_true, Bool.not_eq_true'] at this
+    exact this
   refine ⟨?_, C13Lemmas.seed_plain ss hk hd⟩
-  apply C13Lemmas.expandDots_plain ss _ hd
-  intro kv hm
-  have := List.all_eq_true.1 hk kv hm
-  simp only [Bool.and_eq_true, Bool.not_eq_true'] at this
-  exact this.1
+  have he : equalities ss = C13Lemmas.keep ss [] := by
+    unfold equalities
+    rw [C13Lemmas.discard_is_keep ss (fun kv hm => (hkv kv hm).2)]
+  rw [he]
+  exact C13Lemmas.expandDots_keep_plain ss (fun kv hm => (hkv kv hm).1)
 
 theorem seed_expands_dots (a b : String) (v : Val)
-    (ha : a.toList.contains '.' = false) (hb : b.toList.contains '.' = false)
-    (hna : a ≠ "") (hnb : b ≠ "") :
+    (ha : a.toList.contains '.' = false) (hb : b.toList.contains '.' = false) :
     expandDots [(a ++ "." ++ b, v)] = .ok [(a, .doc [(b, v)])] :=
   C13Lemmas.expandDots_two a b v ha hb
 
